@@ -150,6 +150,14 @@ def _build_codec(inputs):
     if kind == "akai_string":
         from smpl_extract.akai.akai_string import char_akai_to_ascii, char_ascii_to_akai
         return {"call": lambda: list(char_ascii_to_akai(char_akai_to_ascii(bytes(v)))), "env": {"v": v, "expect": list(v)}}
+    if kind == "name_field":
+        # the 12-byte name field as declared: build -> exactly the codes, blank-padded; parse -> the name without its trailing blanks only
+        from smpl_extract.akai.akai_string import AkaiPaddedString
+        alphabet = "0123456789 ABCDEFGHIJKLMNOPQRSTUVWXYZ#+-."
+        text = "".join(alphabet[i] for i in v)
+        fld = AkaiPaddedString(12)
+        return {"call": lambda: [list(fld.build(text)), fld.parse(fld.build(text)), fld.parse(bytes(v) + bytes([10] * (12 - len(v))))],
+                "env": {"v": v, "expect": [list(v) + [10] * (12 - len(v)), text.rstrip(" "), text.rstrip(" ")]}}
     raise ValueError(kind)
 
 
@@ -171,6 +179,12 @@ def _small_codec(tier, seed):
     for _ in range(200 if tier == "quick" else 5000):
         n = rnd.randint(0, 12)
         yield {"kind": "akai_string", "v": [rnd.randint(0, 40) for _ in range(n)]}
+    for first in range(41):          # every character in first and in last position, blanks inside
+        yield {"kind": "name_field", "v": [first, 11]}
+        yield {"kind": "name_field", "v": [11, 10, first]}
+    for _ in range(200 if tier == "quick" else 5000):
+        n = rnd.randint(0, 12)
+        yield {"kind": "name_field", "v": [rnd.choice([10, rnd.randint(0, 40)]) for _ in range(n)]}
 
 
 @contract("finite:codecs", props=["C18"], abstract=True)
@@ -181,5 +195,30 @@ def _fin(c):
 CONCRETE["finite:codecs"] = {
     "build": _build_codec, "small": _small_codec,
     "bound": "EXHAUSTIVE finite domains on the real code: all 256 tuning bytes (IEEE-754 doubles as executed), all 256 bytes of "
-             "each character codec, all 256 bytes x 3 note codecs, all 14 (degree, sharp) x 10 octaves note texts; plus sampled AKAI strings of length <= 12",
+             "each character codec, all 256 bytes x 3 note codecs, all 14 (degree, sharp) x 10 octaves note texts; plus sampled AKAI strings of length <= 12 "
+             "and sampled names through the declared 12-byte name field (build and parse)",
 }
+
+
+# ------------------------------------------------------------------ the string level: AkaiString (the adapter every name field goes through)
+# decode is the per-byte table applied position by position - same length, same order, nothing trimmed or dropped (a stored leading
+# blank is a character of the name; the trailing pad is removed by the declaration around the adapter, see finite:codecs/name_field)
+def _mk_string(k):
+    @contract(AS + f":AkaiString._decode[len={k}]", source_key=AS + ":AkaiString._decode", props=["C18"], proof_only=True)
+    def _dec(c):
+        c.self_obj(("self", AS + ":AkaiString", {}))
+        c.param("obj", ("clist", ["int"] * k))
+        c.param("context", ("drop",))
+        c.param("path", ("drop",))
+        c.use = {AS + ":char_akai_to_ascii": "inline", AS + ":_fast_akai_to_ascii": "inline", AS + ":_fast_akai_to_ascii_byte": "inline"}
+        valid = " and ".join(f"0 <= obj[{i}] and obj[{i}] <= 40" for i in range(k)) or "True"
+        c.raises("ConstructError", f"not ({valid})", iff=True)
+        c.ensures(f"len(result) == {k}", "one-character-per-stored-byte")
+        for i in range(k):
+            c.ensures(f"len(result) == {k} and ord(char_at(result, {i})) == " + EXPECT.replace("b", f"obj[{i}]"), f"character-{i}-is-the-table-image-of-byte-{i}")
+        c.modifies()
+    return _dec
+
+
+for _k in (0, 1, 2, 3):
+    _mk_string(_k)
